@@ -357,7 +357,7 @@ func checkProcessor(p *Prog, r *Report, lf *layerFacts, proc *ssa.Function) int 
 	}
 	r.Note("%s: first layers %v, successors %v, %d sequences", name, fl, succ, len(seqs))
 	// paths of ProcessPacketData that emit a record
-	fp := Paths(proc)
+	fp := PathsInl(proc)
 	if len(fp.Headers) > 0 {
 		r.Viol("C06.R3", name+"/loop-free", pos, "frame processing is loop-free (terminates)", "loop in ProcessPacketData")
 	} else {
